@@ -323,8 +323,11 @@ class C15(PropBase):
             st.append("limit %s %s %s %s" % (hx(rng.choice(["Max open files", "Max \u00e9", "A", "a", "Max cpu time", rng.choice(HOSTILE)])), lv(), lv(), hs()))
         if rng.chance(1, 8):
             st.append("pid %s" % rng.choice(["-", "0", str(U32), "4242"]))
-        if nt and rng.chance(1, 4):
-            st.append("inl %d %d %s %s %s" % (rng.below(nt), rng.below(3), hs(), rng.choice(["-", hs()]), rng.choice(["-", "0", str(U32), "17"])))
+        if nt and rng.chance(1, 3):
+            # one to three inline frames pushed onto ONE frame (mostly frame 0, which exists whenever the thread has frames): their order is observable
+            t_, f_ = rng.below(nt), rng.choice([0, 0, 0, 1, 2])
+            for _ in range(rng.choice([1, 2, 2, 3])):
+                st.append("inl %d %d %s %s %s" % (t_, f_, hs(), rng.choice(["-", hs()]), rng.choice(["-", "0", str(U32), "17"])))
         if rng.chance(1, 10):
             st.append("nobootargs")
         for d in st:
@@ -781,6 +784,8 @@ class C15(PropBase):
         for d, a in st:
             if d == "inl":
                 pushed.setdefault((int(a[0]), int(a[1])), []).append((dec(a[2]), None if a[3] == "-" else dec(a[3]), None if a[4] == "-" else int(a[4])))
+        self.__dict__["_multi_inl"] = self.__dict__.get("_multi_inl", 0) + sum(
+            1 for t in doc.get("threads") or [] for f in t.get("frames") or [] if len(f.get("inlines") or []) >= 2)
         for (ti, fi), want in pushed.items():
             ths = doc.get("threads") or []
             if ti >= len(ths) or fi >= len(ths[ti].get("frames") or []):
@@ -944,6 +949,7 @@ class C15(PropBase):
                         out.append({"case": ctx["cases"][i], "profile": prof, "found_input": True, "what": what,
                                     "model": mview[max(0, j - 80):j + 120], "impl": view[max(0, j - 80):j + 120]})
         ctx["info"]["member_coverage_reports_with_member_present"] = dict(sorted(self.__dict__.get("_cov", {}).items()))
+        ctx["info"]["frames_with_two_or_more_inlines"] = self.__dict__.get("_multi_inl", 0)
         ctx["info"]["crashing_thread_ip_register_equals_offset_checks"] = self.__dict__.get("_ipchecks", 0)
         ctx["info"]["address_display_32bit_platforms"] = self.__dict__.get("_wide32", {})
         ctx["info"]["traces_validated_against_impl"] = compared
